@@ -72,6 +72,12 @@ fn probe(p: &CoroutinePool<'static>) {
 
 static RACE_TASK: std::sync::atomic::AtomicU64 = std::sync::atomic::AtomicU64::new(0);
 static RACE_STORED: std::sync::atomic::AtomicBool = std::sync::atomic::AtomicBool::new(false);
+/// schedule forcing "deadline in the window": the worker that has stored the result of task HOLD_TASK is held before it
+/// notifies the waiter until the waiter's deadline (HOLD_UNTIL, ms on the mono clock) has passed
+static HOLD_TASK: std::sync::atomic::AtomicU64 = std::sync::atomic::AtomicU64::new(0);
+static HOLD_UNTIL: std::sync::atomic::AtomicU64 = std::sync::atomic::AtomicU64::new(0);
+static HOLD_ARMED: std::sync::atomic::AtomicBool = std::sync::atomic::AtomicBool::new(false);
+static HELD: std::sync::atomic::AtomicU64 = std::sync::atomic::AtomicU64::new(0);
 
 fn run_scenario(sc: &Value) {
     install_hook_sink(Some(Box::new(|m| {
@@ -81,12 +87,23 @@ fn run_scenario(sc: &Value) {
             if t != 0 && t == RACE_TASK.load(std::sync::atomic::Ordering::SeqCst) {
                 RACE_STORED.store(true, std::sync::atomic::Ordering::SeqCst);
             }
+            if t != 0 && t == HOLD_TASK.load(std::sync::atomic::Ordering::SeqCst) {
+                HOLD_ARMED.store(true, std::sync::atomic::Ordering::SeqCst);
+            }
         }
         hook_map(m)
     })));
     // schedule forcing for the join protocol: a waiter that missed at its first look is held
     // before it registers until the task's result has been stored and announced
     open_coroutine_core::common::verif::set_pause(Some(Box::new(|point| {
+        if point == "pool_between_store_and_notify" && HOLD_ARMED.swap(false, std::sync::atomic::Ordering::SeqCst) {
+            // (the result_stored event of the held task came from this thread just before this point)
+            HELD.store(HOLD_TASK.load(std::sync::atomic::Ordering::SeqCst), std::sync::atomic::Ordering::SeqCst);
+            while mono_ns() / 1_000_000 < HOLD_UNTIL.load(std::sync::atomic::Ordering::SeqCst) {
+                std::thread::sleep(Duration::from_millis(1));
+            }
+            return;
+        }
         if point != "pool_wait_between_check_and_register" || RACE_TASK.load(std::sync::atomic::Ordering::SeqCst) == 0 {
             return;
         }
@@ -171,6 +188,10 @@ fn run_scenario(sc: &Value) {
                 let t = h["t"].as_u64().unwrap();
                 let ms = h.get("ms").and_then(Value::as_u64).unwrap_or(300);
                 if let Some(id) = ids.get(&t).copied() {
+                    if h.get("race").and_then(Value::as_str) == Some("deadline") {
+                        HOLD_UNTIL.store(mono_ns() / 1_000_000 + ms + 40, std::sync::atomic::Ordering::SeqCst);
+                        HOLD_TASK.store(t, std::sync::atomic::Ordering::SeqCst);
+                    }
                     if h.get("race").and_then(Value::as_bool).unwrap_or(false) {
                         RACE_STORED.store(false, std::sync::atomic::Ordering::SeqCst);
                         RACE_TASK.store(t, std::sync::atomic::Ordering::SeqCst);
@@ -184,11 +205,11 @@ fn run_scenario(sc: &Value) {
                         let r = p.wait_task_result(id, Duration::from_millis(ms));
                         let el = t0.elapsed().as_millis() as u64;
                         match r {
-                            Ok(Ok(v)) => rec(json!({"ev": "wait_e", "task": t, "out": "ok", "v": v.unwrap_or(0), "ms": el, "limit": ms})),
+                            Ok(Ok(v)) => rec(json!({"ev": "wait_e", "task": t, "out": "ok", "v": v.unwrap_or(0), "ms": el, "limit": ms, "held": HELD.load(std::sync::atomic::Ordering::SeqCst) == t})),
                             Ok(Err(m)) => rec(json!({"ev": "wait_e", "task": t, "out": "err", "v": m.strip_prefix('p').and_then(|x| x.parse::<u64>().ok()).unwrap_or(0),
-                                                     "msg": m, "ms": el, "limit": ms})),
+                                                     "msg": m, "ms": el, "limit": ms, "held": HELD.load(std::sync::atomic::Ordering::SeqCst) == t})),
                             Err(e) => rec(json!({"ev": "wait_e", "task": t, "out": if e.kind() == std::io::ErrorKind::TimedOut { "timeout" } else { "error" },
-                                                 "v": 0, "ms": el, "limit": ms})),
+                                                 "v": 0, "ms": el, "limit": ms, "held": HELD.load(std::sync::atomic::Ordering::SeqCst) == t})),
                         }
                     }));
                     // let the waiter reach its first check
